@@ -13,6 +13,11 @@
  *   body <bodyLen> <seed> <off:len:total,…>  coap_block_build_body sequence
  *   srcv <szx> <bodyLen> <seed> <size1|-> <num:m[:len],…>   coap_handle_request_put_block sequence (SINGLE_BODY)
  *   srcv2 <maxBlk> <bodyLen> <seed> <size1|-> <num.m.szx,…>  the same with a block size per step and a server block size limit
+ *   srcv3 <maxBlk> <len1> <seed1> <len2> <seed2> <size1:0|1> <t.num.m.szx.r,…>   two interleaved Block1 transfers to ONE resource,
+ *                                              told apart by Request-Tag only (r: 0 absent, 1 EMPTY, 2..9 / 10..17 = 1..8 bytes)
+ *   crcv <single> <bodyLen> <seed> <size2|-> <num.m.szx.etag.fmt[.len],…>   coap_handle_response_get_block sequence (client, Block2)
+ *   xmit2 <szx> <bodyLen> <seed> <mtu2> <num.szx,…>        coap_add_data_large_response + coap_handle_request_send_block sequence (server, Block2)
+ *   xmit1 <cszx|-> <bodyLen> <seed> <mtu> <code.num.szx|code,…>   coap_add_data_large_request + coap_send + coap_handle_response_send_block sequence (client, Block1)
  *
  * Layer B (H-sim, sim_core.h): a real client and a real server context, virtual clock, scripted network:
  *
@@ -351,6 +356,335 @@ static void do_srcv2(unsigned maxBlk, size_t bodyLen, unsigned seed, long size1,
   free(body);
 }
 
+/* Request-Tag for code r: 0 = no option, 1 = EMPTY option, 2..9 = 1..8 bytes 0x71.., 10..17 = 1..8 bytes 0x51.. */
+static int rtag_of(unsigned r, uint8_t *out) {
+  if (r == 0) return -1;
+  if (r == 1) return 0;
+  if (r <= 9) { for (unsigned i = 0; i < r - 1; i++) out[i] = (uint8_t)(0x71 + i); return (int)(r - 1); }
+  for (unsigned i = 0; i < r - 9; i++) out[i] = (uint8_t)(0x51 + i);
+  return (int)(r - 9);
+}
+
+/* srcv3 <maxBlk> <len1> <seed1> <len2> <seed2> <size1:0|1> <t.num.m.szx.r,…> : every step is a Block1 PUT to resource "b"
+ * carrying the genuine slice (num, szx) of body t (0|1) and the Request-Tag coded by r; printed per step: d…/s<code> as
+ * srcv2, b<num>.<m>.<szx> = Block1 option of the response if any, then /<number of lg_srcv on the session> */
+static void do_srcv3(unsigned maxBlk, size_t len1, unsigned seed1, size_t len2, unsigned seed2, int withSize1, char *seq) {
+  sim_reset();
+  sim_log_enabled = 0;
+  uint8_t *bodies[2] = {mk_body(len1, seed1), mk_body(len2, seed2)};
+  size_t lens[2] = {len1, len2};
+  coap_context_t *ctx = sim_new_context();
+  coap_session_t *s;
+  coap_resource_t *res = coap_resource_init(coap_make_str_const("b"), 0);
+  coap_string_t *uri = coap_new_string(1);
+  char *tok, *save = NULL;
+  int first = 1, k = 0;
+  coap_register_request_handler(res, COAP_REQUEST_PUT, hnd_dummy);
+  coap_add_resource(ctx, res);
+  coap_context_set_block_mode(ctx, COAP_BLOCK_USE_LIBCOAP | COAP_BLOCK_SINGLE_BODY);
+  if (maxBlk) coap_context_set_max_block_size(ctx, (size_t)1 << (maxBlk + 4));
+  s = sim_new_client(ctx, 5683);
+  s->block_mode = ctx->block_mode;
+  uri->s[0] = 'b';
+  for (tok = strtok_r(seq, ",", &save); tok; tok = strtok_r(NULL, ",", &save), k++) {
+    unsigned t, num, m, szx, r;
+    uint8_t buf[4], tk[2] = {0x79, (uint8_t)k}, rt[8];
+    coap_pdu_t *req, *rsp;
+    int added = 0, ret, rl, n = 0;
+    coap_lg_srcv_t *free_lg = NULL, *q;
+    size_t chunk, off, plen;
+    if (sscanf(tok, "%u.%u.%u.%u.%u", &t, &num, &m, &szx, &r) != 5 || szx > 6 || t > 1 || r > 17 || m > 1) { printf("bad-op"); break; }
+    chunk = (size_t)1 << (szx + 4);
+    off = (size_t)num * chunk;
+    if (off > lens[t]) off = lens[t];
+    plen = lens[t] - off < chunk ? lens[t] - off : chunk;
+    req = coap_pdu_init(COAP_MESSAGE_CON, COAP_REQUEST_CODE_PUT, (coap_mid_t)(100 + k), 2048);
+    rsp = coap_pdu_init(COAP_MESSAGE_ACK, 0, (coap_mid_t)(100 + k), 2048);
+    coap_add_token(req, 2, tk);
+    coap_add_token(rsp, 2, tk);
+    coap_add_option(req, COAP_OPTION_URI_PATH, 1, (const uint8_t *)"b");
+    coap_add_option(req, COAP_OPTION_BLOCK1, coap_encode_var_safe(buf, sizeof(buf), (num << 4) | (m << 3) | szx), buf);
+    if (withSize1) coap_add_option(req, COAP_OPTION_SIZE1, coap_encode_var_safe(buf, sizeof(buf), (unsigned)lens[t]), buf);
+    rl = rtag_of(r, rt);
+    if (rl >= 0) coap_add_option(req, COAP_OPTION_RTAG, (size_t)rl, rt);
+    if (plen) coap_add_data(req, plen, bodies[t] + off);
+    coap_lock_lock(ctx, break);
+    ret = coap_handle_request_put_block(ctx, s, req, rsp, res, uri, NULL, &added, &free_lg);
+    if (!first) fputc(',', stdout);
+    first = 0;
+    if (ret == 0) {
+      size_t l = 0, o = 0, tt = 0; const uint8_t *d = NULL;
+      coap_get_data_large(req, &l, &d, &o, &tt);
+      printf("d%zu:%zu:%zu:%08x", o, l, tt, sim_fnv(d, l));
+      if (free_lg) {
+        LL_DELETE(s->lg_srcv, free_lg);
+        coap_block_delete_lg_srcv(s, free_lg);
+      }
+    } else {
+      coap_block_b_t rb;
+      printf("s%d", (int)rsp->code);
+      /* the Block1 option of the 2.31 (NUM acknowledged, SZX the server wants) */
+      if (coap_get_block_b(NULL, rsp, COAP_OPTION_BLOCK1, &rb)) printf("b%u.%u.%u", rb.num, rb.m, rb.szx);
+    }
+    LL_FOREACH(s->lg_srcv, q) n++;
+    printf("/%d", n);
+    coap_lock_unlock(ctx);
+    coap_delete_pdu(req);
+    coap_delete_pdu(rsp);
+  }
+  coap_delete_string(uri);
+  sim_free_all(0);
+  sim_log_enabled = 1;
+  free(bodies[0]); free(bodies[1]);
+}
+
+/* crcv <single> <bodyLen> <seed> <size2|-> <num.m.szx.etag.fmt[.len],…> : the CLIENT's Block2 receive path.  Every item is a
+ * 2.05 response (NON, application token) carrying Block2 (num, m, szx), the genuine slice of the body (or its first <len>
+ * bytes), ETag = one byte <etag> (0 = no option), Content-Format <fmt> (0 = no option), Size2 as given.  Printed per item:
+ *   h<off>:<len>:<total>:<hash>  the function returned 0 and the caller would hand rcvd to the response handler
+ *   H<off>:<len>:<total>:<hash>  the response handler was called from inside the function
+ *   e402 / e408                  returned 0 with the code rewritten
+ *   s                            returned 1, handler not called
+ *   +q<num>.<szx>                a request with this Block2 option was transmitted during the call
+ *   /<state>                     - no lg_crcv, I lg_crcv->initial, R<b-e+b-e…> rec_blocks otherwise */
+static char crcv_hbuf[128], crcv_qbuf[128];
+static coap_response_t crcv_on_response(coap_session_t *session, const coap_pdu_t *sent, const coap_pdu_t *rcvd, const coap_mid_t mid) {
+  size_t len = 0, off = 0, total = 0; const uint8_t *data = NULL;
+  (void)session; (void)sent; (void)mid;
+  coap_get_data_large(rcvd, &len, &data, &off, &total);
+  snprintf(crcv_hbuf, sizeof(crcv_hbuf), "H%zu:%zu:%zu:%08x", off, len, total, sim_fnv(data, len));
+  return COAP_RESPONSE_OK;
+}
+static void crcv_on_tx(const sim_dgram_t *d) {
+  coap_pdu_t *p = coap_pdu_init(0, 0, 0, 4096);
+  coap_block_b_t b;
+  size_t n = strlen(crcv_qbuf);
+  if (p && coap_pdu_parse(COAP_PROTO_UDP, d->data, d->len, p) && coap_get_block_b(NULL, p, COAP_OPTION_BLOCK2, &b))
+    snprintf(crcv_qbuf + n, sizeof(crcv_qbuf) - n, "+q%u.%u", b.num, b.szx);
+  else
+    snprintf(crcv_qbuf + n, sizeof(crcv_qbuf) - n, "+q?");
+  if (p) coap_delete_pdu(p);
+}
+
+static void do_crcv(int single, size_t bodyLen, unsigned seed, long size2, char *seq) {
+  static const uint8_t tok[4] = {0xa1, 0xa1, 0xa1, 0xa1};
+  sim_reset();
+  sim_log_enabled = 0;
+  uint8_t *body = mk_body(bodyLen, seed);
+  coap_context_t *ctx = sim_new_context();
+  coap_session_t *s = sim_new_client(ctx, 5683);
+  coap_pdu_t *sent;
+  char *tk, *save = NULL;
+  int first = 1, k = 0;
+  coap_context_set_block_mode(ctx, COAP_BLOCK_USE_LIBCOAP | (single ? COAP_BLOCK_SINGLE_BODY : 0));
+  s->block_mode = ctx->block_mode;
+  coap_register_response_handler(ctx, crcv_on_response);
+  sim_tx_hook = crcv_on_tx;
+  sent = coap_new_pdu(COAP_MESSAGE_NON, COAP_REQUEST_CODE_GET, s);
+  coap_add_token(sent, 4, tok);
+  coap_add_option(sent, COAP_OPTION_URI_PATH, 1, (const uint8_t *)"b");
+  for (tk = strtok_r(seq, ",", &save); tk; tk = strtok_r(NULL, ",", &save), k++) {
+    unsigned num, m, szx, etag, fmt; long len = -1;
+    uint8_t buf[4];
+    coap_pdu_t *rcvd;
+    size_t chunk, off, plen;
+    int ret, nf = sscanf(tk, "%u.%u.%u.%u.%u.%ld", &num, &m, &szx, &etag, &fmt, &len);
+    if (nf < 5 || szx > 6 || m > 1 || etag > 255 || fmt > 255) { printf("bad-op"); break; }
+    chunk = (size_t)1 << (szx + 4);
+    off = (size_t)num * chunk;
+    if (off > bodyLen) off = bodyLen;
+    plen = bodyLen - off < chunk ? bodyLen - off : chunk;
+    if (len >= 0 && (size_t)len <= bodyLen - off) plen = (size_t)len;
+    rcvd = coap_pdu_init(COAP_MESSAGE_NON, COAP_RESPONSE_CODE_CONTENT, (coap_mid_t)(200 + k), 4096);
+    coap_add_token(rcvd, 4, tok);
+    if (etag) { buf[0] = (uint8_t)etag; coap_add_option(rcvd, COAP_OPTION_ETAG, 1, buf); }
+    if (fmt) coap_add_option(rcvd, COAP_OPTION_CONTENT_FORMAT, coap_encode_var_safe(buf, sizeof(buf), fmt), buf);
+    coap_add_option(rcvd, COAP_OPTION_BLOCK2, coap_encode_var_safe(buf, sizeof(buf), (num << 4) | (m << 3) | szx), buf);
+    if (size2 >= 0) coap_add_option(rcvd, COAP_OPTION_SIZE2, coap_encode_var_safe(buf, sizeof(buf), (unsigned)size2), buf);
+    if (plen) coap_add_data(rcvd, plen, body + off);
+    crcv_hbuf[0] = crcv_qbuf[0] = 0;
+    coap_lock_lock(ctx, break);
+    ret = coap_handle_response_get_block(ctx, s, sent, rcvd, COAP_RECURSE_OK);
+    coap_lock_unlock(ctx);
+    if (!first) fputc(',', stdout);
+    first = 0;
+    if (crcv_hbuf[0]) printf("%s", crcv_hbuf);
+    else if (ret == 0) {
+      if (rcvd->code == COAP_RESPONSE_CODE(402)) printf("e402");
+      else if (rcvd->code == COAP_RESPONSE_CODE(408)) printf("e408");
+      else {
+        size_t l = 0, o = 0, t = 0; const uint8_t *d = NULL;
+        coap_get_data_large(rcvd, &l, &d, &o, &t);
+        printf("h%zu:%zu:%zu:%08x", o, l, t, sim_fnv(d, l));
+      }
+    } else
+      printf("s");
+    printf("%s/", crcv_qbuf);
+    if (!s->lg_crcv) printf("-");
+    else if (s->lg_crcv->initial) printf("I");
+    else {
+      const coap_rblock_t *rb = &s->lg_crcv->rec_blocks;
+      printf("R");
+      for (uint32_t i = 0; i < rb->used; i++) printf("%s%u-%u", i ? "+" : "", rb->range[i].begin, rb->range[i].end);
+    }
+    coap_delete_pdu(rcvd);
+  }
+  coap_delete_pdu(sent);
+  sim_tx_hook = NULL;
+  sim_free_all(0);
+  sim_log_enabled = 1;
+  free(body);
+}
+
+/* ---- sender side (lg_xmit) ---- */
+static void print_block_msg(coap_pdu_t *p, coap_option_num_t optnum) {
+  coap_block_b_t b;
+  size_t l = 0; const uint8_t *d = NULL;
+  coap_get_data(p, &l, &d);
+  if (coap_get_block_b(NULL, p, optnum, &b)) printf("b%u.%u.%u:%zu:%08x", b.num, b.m, b.szx, l, sim_fnv(d, l));
+  else printf("n:%zu:%08x", l, sim_fnv(d, l));
+}
+
+/* xmit2 <szx> <bodyLen> <seed> <mtu2> <num.szx,…> : the SERVER sending a body with Block2.  The application answers a
+ * GET carrying Block2 (0,0,szx) with coap_add_data_large_response() on an <mtu1>-byte response PDU (<mtu2> = "mtu1:mtu2",
+ * default 1152; printed first, with
+ * lg=<blk_size | -1>), then every item is a GET with Block2 (num,0,szx) given to the real coap_handle_request_send_block()
+ * with a fresh response PDU of max size <mtu2>; per item: p (returned 0: passed to the application), c<code> (error
+ * response), b<num>.<m>.<szx>:<len>:<hash> (block response), then /<lg_xmit->offset | ->.  rel = release callback runs. */
+static void do_xmit2(unsigned szx, size_t bodyLen, unsigned seed, size_t mtu1, size_t mtu2, char *seq) {
+  static const uint8_t tok[4] = {0xa1, 0xa1, 0xa1, 0xa1};
+  sim_reset();
+  sim_log_enabled = 0;
+  uint8_t *body = mk_body(bodyLen, seed), buf[4];
+  coap_context_t *ctx = sim_new_context();
+  coap_session_t *s = sim_new_client(ctx, 5683);
+  coap_resource_t *res = coap_resource_init(coap_make_str_const("b"), 0);
+  coap_pdu_t *req, *rsp;
+  char *tk, *save = NULL;
+  int k = 0, r;
+  coap_register_request_handler(res, COAP_REQUEST_GET, hnd_dummy);
+  coap_add_resource(ctx, res);
+  coap_context_set_block_mode(ctx, COAP_BLOCK_USE_LIBCOAP | COAP_BLOCK_SINGLE_BODY);
+  s->block_mode = ctx->block_mode;
+  req = coap_pdu_init(COAP_MESSAGE_CON, COAP_REQUEST_CODE_GET, 1, 256);
+  coap_add_token(req, 4, tok);
+  coap_add_option(req, COAP_OPTION_URI_PATH, 1, (const uint8_t *)"b");
+  coap_add_option(req, COAP_OPTION_BLOCK2, coap_encode_var_safe(buf, sizeof(buf), szx), buf);
+  rsp = coap_pdu_init(COAP_MESSAGE_ACK, COAP_RESPONSE_CODE_CONTENT, 1, mtu1);
+  coap_add_token(rsp, 4, tok);
+  rel_count = 0;
+  r = coap_add_data_large_response(res, s, req, rsp, NULL, COAP_MEDIATYPE_APPLICATION_OCTET_STREAM, -1, 0, bodyLen, body, rel_cb, NULL);
+  if (!r) printf("fail");
+  else print_block_msg(rsp, COAP_OPTION_BLOCK2);
+  printf(" lg=%d", s->lg_xmit ? (int)s->lg_xmit->blk_size : -1);
+  coap_delete_pdu(req); coap_delete_pdu(rsp);
+  for (tk = strcmp(seq, "-") ? strtok_r(seq, ",", &save) : NULL; tk; tk = strtok_r(NULL, ",", &save), k++) {
+    unsigned num, sz;
+    int ret;
+    if (sscanf(tk, "%u.%u", &num, &sz) != 2 || sz > 6 || num > 0xFFFFF) { printf(" bad-op"); break; }
+    req = coap_pdu_init(COAP_MESSAGE_CON, COAP_REQUEST_CODE_GET, (coap_mid_t)(2 + k), 256);
+    coap_add_token(req, 4, tok);
+    coap_add_option(req, COAP_OPTION_URI_PATH, 1, (const uint8_t *)"b");
+    coap_add_option(req, COAP_OPTION_BLOCK2, coap_encode_var_safe(buf, sizeof(buf), (num << 4) | sz), buf);
+    rsp = coap_pdu_init(COAP_MESSAGE_ACK, 0, (coap_mid_t)(2 + k), mtu2);
+    if (!rsp || !coap_add_token(rsp, 4, tok)) { printf(" nopdu"); coap_delete_pdu(req); if (rsp) coap_delete_pdu(rsp); break; }
+    coap_lock_lock(ctx, break);
+    ret = coap_handle_request_send_block(s, req, rsp, res, NULL);
+    coap_lock_unlock(ctx);
+    fputc(k ? ',' : ' ', stdout);
+    if (ret == 0) printf("p");
+    else if (COAP_RESPONSE_CLASS(rsp->code) != 2) printf("c%d", (int)rsp->code);
+    else print_block_msg(rsp, COAP_OPTION_BLOCK2);
+    if (s->lg_xmit) printf("/%zu", s->lg_xmit->offset); else printf("/-");
+    coap_delete_pdu(req); coap_delete_pdu(rsp);
+  }
+  sim_free_all(0);
+  sim_log_enabled = 1;
+  printf(" rel=%d", rel_count);
+  free(body);
+}
+
+/* xmit1 <cszx|-> <bodyLen> <seed> <mtu> <code.num.szx|code,…> : the CLIENT sending a body with Block1.  The application
+ * PUTs (NON, 4-byte token, Uri-Path "b", optional Block1 (0,0,cszx)) with coap_add_data_large_request() and coap_send() on a
+ * session with MTU <mtu> (first datagram printed; `fail` if refused).  Every item is a response (code as a number, e.g.
+ * 95 = 2.31, 68 = 2.04, 141 = 4.13) with the token of the datagram sent last and, if given, Block1 (num,1,szx), handed to
+ * the real coap_handle_response_send_block(); per item: the datagram transmitted in reaction (b<num>.<m>.<szx>:<len>:<hash>),
+ * or i (returned 1, nothing sent), f (returned 0: handler to be called), F (the same with the code rewritten to 5.00);
+ * then /<blk_size>.<offset>.<last_block> of the lg_xmit or /- if it is gone.  rel = release callback runs. */
+static uint8_t x1_tok[8]; static size_t x1_tkl;
+static char x1_buf[96];
+static void x1_on_tx(const sim_dgram_t *d) {
+  coap_pdu_t *p = coap_pdu_init(0, 0, 0, 4096);
+  if (p && coap_pdu_parse(COAP_PROTO_UDP, d->data, d->len, p)) {
+    coap_block_b_t b;
+    size_t l = 0; const uint8_t *dd = NULL;
+    coap_get_data(p, &l, &dd);
+    if (coap_get_block_b(NULL, p, COAP_OPTION_BLOCK1, &b))
+      snprintf(x1_buf, sizeof(x1_buf), "b%u.%u.%u:%zu:%08x", b.num, b.m, b.szx, l, sim_fnv(dd, l));
+    else
+      snprintf(x1_buf, sizeof(x1_buf), "n:%zu:%08x", l, sim_fnv(dd, l));
+    x1_tkl = d->tkl; memcpy(x1_tok, d->token, d->tkl);
+  } else
+    snprintf(x1_buf, sizeof(x1_buf), "unparsable");
+  if (p) coap_delete_pdu(p);
+}
+
+static void do_xmit1(int cszx, size_t bodyLen, unsigned seed, unsigned mtu, char *seq) {
+  static const uint8_t tok[4] = {0xa1, 0xa1, 0xa1, 0xa1};
+  sim_reset();
+  sim_log_enabled = 0;
+  uint8_t *body = mk_body(bodyLen, seed), buf[4];
+  coap_context_t *ctx = sim_new_context();
+  coap_session_t *s = sim_new_client(ctx, 5683);
+  coap_pdu_t *p;
+  char *tk, *save = NULL;
+  int k = 0;
+  coap_context_set_block_mode(ctx, COAP_BLOCK_USE_LIBCOAP | COAP_BLOCK_SINGLE_BODY);
+  s->block_mode = ctx->block_mode;
+  coap_session_set_mtu(s, mtu);
+  sim_tx_hook = x1_on_tx;
+  x1_buf[0] = 0; x1_tkl = 0;
+  rel_count = 0;
+  p = coap_new_pdu(COAP_MESSAGE_NON, COAP_REQUEST_CODE_PUT, s);
+  coap_add_token(p, 4, tok);
+  coap_add_option(p, COAP_OPTION_URI_PATH, 1, (const uint8_t *)"b");
+  if (cszx >= 0) coap_add_option(p, COAP_OPTION_BLOCK1, coap_encode_var_safe(buf, sizeof(buf), (unsigned)cszx), buf);
+  if (!coap_add_data_large_request(s, p, bodyLen, body, rel_cb, NULL)) {
+    printf("fail");
+    coap_delete_pdu(p);
+    goto out;
+  }
+  if (coap_send(s, p) == COAP_INVALID_MID) { printf("send-fail"); goto out; }
+  printf("%s", x1_buf[0] ? x1_buf : "-");
+  printf(" lg=%d", s->lg_xmit ? (int)s->lg_xmit->blk_size : -1);
+  for (tk = strcmp(seq, "-") ? strtok_r(seq, ",", &save) : NULL; tk; tk = strtok_r(NULL, ",", &save), k++) {
+    unsigned code, num = 0, sz = 0;
+    int nf = sscanf(tk, "%u.%u.%u", &code, &num, &sz), ret;
+    coap_pdu_t *rcvd;
+    if ((nf != 1 && nf != 3) || sz > 6 || num > 0xFFFFF || code > 255) { printf(" bad-op"); break; }
+    rcvd = coap_pdu_init(COAP_MESSAGE_NON, (coap_pdu_code_t)code, (coap_mid_t)(300 + k), 256);
+    coap_add_token(rcvd, x1_tkl, x1_tok);
+    if (nf == 3) coap_add_option(rcvd, COAP_OPTION_BLOCK1, coap_encode_var_safe(buf, sizeof(buf), (num << 4) | 8 | sz), buf);
+    x1_buf[0] = 0;
+    coap_lock_lock(ctx, break);
+    ret = coap_handle_response_send_block(s, NULL, rcvd);
+    coap_lock_unlock(ctx);
+    fputc(k ? ',' : ' ', stdout);
+    if (x1_buf[0]) printf("%s", x1_buf);
+    else if (ret == 1) printf("i");
+    else printf(rcvd->code == COAP_RESPONSE_CODE(500) ? "F" : "f");
+    if (s->lg_xmit) printf("/%u.%zu.%d", (unsigned)s->lg_xmit->blk_size, s->lg_xmit->offset, s->lg_xmit->last_block);
+    else printf("/-");
+    coap_delete_pdu(rcvd);
+  }
+out:
+  sim_tx_hook = NULL;
+  sim_free_all(0);
+  sim_log_enabled = 1;
+  printf(" rel=%d", rel_count);
+  free(body);
+}
+
 #include "block_sim.h"
 
 static void step(char *line) {
@@ -384,6 +718,18 @@ static void step(char *line) {
   } else if (!strcmp(w[0], "srcv2") && n == 6) {
     do_srcv2((unsigned)strtoul(w[1], 0, 10), strtoull(w[2], 0, 10), (unsigned)strtoul(w[3], 0, 10),
              strcmp(w[4], "-") ? atol(w[4]) : -1, w[5]);
+  } else if (!strcmp(w[0], "srcv3") && n == 8) {
+    do_srcv3((unsigned)strtoul(w[1], 0, 10), strtoull(w[2], 0, 10), (unsigned)strtoul(w[3], 0, 10), strtoull(w[4], 0, 10),
+             (unsigned)strtoul(w[5], 0, 10), atoi(w[6]), w[7]);
+  } else if (!strcmp(w[0], "crcv") && n == 6) {
+    do_crcv(atoi(w[1]), strtoull(w[2], 0, 10), (unsigned)strtoul(w[3], 0, 10), strcmp(w[4], "-") ? atol(w[4]) : -1, w[5]);
+  } else if (!strcmp(w[0], "xmit2") && n == 6) {
+    size_t m1 = 1152, m2 = 0;
+    if (sscanf(w[4], "%zu:%zu", &m1, &m2) != 2) { m1 = 1152; m2 = strtoull(w[4], 0, 10); }
+    if (m1 < 8) { printf("bad-op"); return; }
+    do_xmit2((unsigned)strtoul(w[1], 0, 10), strtoull(w[2], 0, 10), (unsigned)strtoul(w[3], 0, 10), m1, m2, w[5]);
+  } else if (!strcmp(w[0], "xmit1") && n == 6) {
+    do_xmit1(strcmp(w[1], "-") ? atoi(w[1]) : -1, strtoull(w[2], 0, 10), (unsigned)strtoul(w[3], 0, 10), (unsigned)strtoul(w[4], 0, 10), w[5]);
   } else if (!strcmp(w[0], "xfer")) {
     do_xfer(n, w);
   } else
